@@ -54,7 +54,7 @@ import Restful.Lemmas.Mime
 import Restful.Lemmas.MimeOWS
 import Restful.Lemmas.MimeClass
 import Restful.Lemmas.StateShape
-import Restful.Lemmas.Translated
+import Restful.Lemmas.TieMime
 namespace Restful
 namespace Props
 open Str Mime
@@ -413,9 +413,10 @@ end C05Example
 -- also: Restful.StateShape.response_shape
 -- also: Restful.StateShape.entity_shape
 
-/-! The regenerated tie (tools/gotrans → Gen/Translated.lean, Lemmas/Translated.lean): the decision
-    functions this property's model contains ARE the ones translated from the Go sources on this run. -/
--- also: Restful.Tie.sort_call_sites
+/-! The regenerated tie (tools/gotrans → Gen/Translated.lean, Lemmas/Tie*.lean): `trimOWS` of this
+    property's model IS the one translated from mime.go on this run (`strings.Trim` with the cutset
+    `" \t"`). -/
+-- also: Restful.Tie.mime_trim_ows
 
 end Props
 end Restful
